@@ -29,6 +29,8 @@ const KEYS: [&str; 29] = [
 
 #[derive(Default, Debug, Clone)]
 struct TrackLog {
+    /// ticks since the last reset (what a stateful custom key would show)
+    since_reset: u64,
     ticks: u64,
     resets: u64,
     last_tick_pos: Option<u64>,
@@ -46,16 +48,19 @@ impl ProgressTracker for Tracker {
     fn tick(&mut self, state: &ProgressState, _now: HInstant) {
         let mut l = self.0.lock().unwrap();
         l.ticks += 1;
+        l.since_reset += 1;
         l.last_tick_pos = Some(state.pos());
     }
     fn reset(&mut self, state: &ProgressState, _now: HInstant) {
         let mut l = self.0.lock().unwrap();
         l.resets += 1;
+        l.since_reset = 0;
         l.last_reset_pos = Some(state.pos());
     }
     fn write(&self, state: &ProgressState, w: &mut dyn Write) {
-        self.0.lock().unwrap().last_write = Some((state.pos(), state.len()));
-        let _ = write!(w, "C<{}|{:?}>", state.pos(), state.len());
+        let mut l = self.0.lock().unwrap();
+        l.last_write = Some((state.pos(), state.len()));
+        let _ = write!(w, "C<{}|{:?}|t{}>", state.pos(), state.len(), l.since_reset);
     }
 }
 
@@ -124,7 +129,9 @@ fn run_case(seed: u64, idx: u64) -> CaseOut {
             };
             clock.fetch_add(adv, Ordering::SeqCst);
             let before_ticks = track.lock().unwrap().ticks;
-            match rng.below(12) {
+            spy.state().log = Some(Vec::new());
+            let flushes_before = spy.flushes();
+            let op_result: Result<(), Verdict> = (|| { match rng.below(12) {
                 0 | 1 => {
                     let d = if rng.chance(1, 6) { rng.u64_biased() } else { rng.range(0, 5000) };
                     pos = pos.wrapping_add(d);
@@ -198,6 +205,23 @@ fn run_case(seed: u64, idx: u64) -> CaseOut {
                         history.push("abandon".into());
                     }
                 }
+            } Ok(()) })();
+            op_result?;
+            // the frame painted by the operation itself: the custom key must already have been
+            // ticked / reset together with the bar when that frame was rendered
+            if spy.flushes() > flushes_before {
+                let lines = last_frame_lines(&spy);
+                let ci = KEYS.iter().position(|k| *k == "custom").unwrap();
+                let want = format!("C<{pos}|{len:?}|t{}>", track.lock().unwrap().since_reset);
+                if lines.get(ci).map(|l| l.trim_end()) != Some(want.as_str()) {
+                    return Err(viol(
+                        "custom-key-out-of-step-with-bar",
+                        vec!["custom".into(), "frame-painted-by-the-operation".into()],
+                        format!("the frame painted by {:?} shows the custom key as {:?}, the tracker's state after the operation is {want:?}", history.last(), lines.get(ci)),
+                        J::from(history.clone()),
+                        replay.clone(),
+                    ));
+                }
             }
         }
         // ---- one draw, then read everything at the same frozen instant -------------------------------
@@ -240,7 +264,7 @@ fn run_case(seed: u64, idx: u64) -> CaseOut {
             ("eta", vec![format!("{:#}", HumanDuration(eta))]),
             ("duration_precise", vec![FormattedDuration(dur).to_string()]),
             ("duration", vec![format!("{:#}", HumanDuration(dur))]),
-            ("custom", vec![format!("C<{pos}|{len:?}>")]),
+            ("custom", vec![format!("C<{pos}|{len:?}|t{}>", track.lock().unwrap().since_reset)]),
             ("nosuchkey", vec![String::new()]),
             ("pos", vec![pos.to_string()]),
         ];
